@@ -829,7 +829,9 @@ class Model():
 
         # Reconstruct the associations
         for assoc_entry in serialized_object.get('associations', []):
-            assoc = list(assoc_entry.keys())[0]
+            # The entry holds the association name and optionally 'extras'
+            assoc = next(key for key in assoc_entry.keys()
+                if key != 'extras')
             assoc_fields = assoc_entry[assoc]
             association = getattr(model.lang_classes_factory.ns, assoc)()
 
